@@ -233,6 +233,10 @@ pub fn interval(args: &[String]) {
         }
         out("iv", 100000 + case, &c, "stiff", key, &why, &extra);
     }
+    // C18 where the corrector struggles: right-hand sides that leave their domain (sqrt, ln), a solution that overflows, a
+    // loose tolerance (one or two Newton iterations), a Newton iteration limit of 1 (low-level BDF) — every exit of the
+    // Newton loop must leave nfev equal to the number of right-hand-side calls (calls made while differencing excluded)
+    counts_at_breakdown();
     // a stiff problem on the explicit methods, long enough for the stiffness detector to stop the run (it looks at every
     // 1000th accepted step): the counters of a run that ends ProbablyStiff
     {
@@ -521,6 +525,61 @@ pub fn hostile(args: &[String]) {
     }
     overflow_family();
     stagnation_family();
+    hostile_jacobian_family();
+}
+
+/// 0: y' = -sqrt(y) (NaN for y < 0), 1: y' = -y (overflows backward), 2: y' = -ln(y) - 1 - x (Newton iterates can leave y > 0)
+struct CountRhs { which: usize, analytic: bool, calls: std::cell::Cell<usize>, diff_calls: std::cell::Cell<usize>, differencing: std::cell::Cell<bool>, jcalls: std::cell::Cell<usize> }
+impl CountRhs { fn new(which: usize, analytic: bool) -> Self { CountRhs { which, analytic, calls: 0.into(), diff_calls: 0.into(), differencing: false.into(), jcalls: 0.into() } } }
+struct FdOf<'a>(&'a CountRhs);
+impl<'a> IVP for FdOf<'a> { fn ode(&self, x: f64, y: &[f64], d: &mut [f64]) { self.0.ode(x, y, d) } }
+impl IVP for CountRhs {
+    fn ode(&self, x: f64, y: &[f64], d: &mut [f64]) {
+        if self.differencing.get() { self.diff_calls.set(self.diff_calls.get() + 1); } else { self.calls.set(self.calls.get() + 1); }
+        if self.calls.get() + self.diff_calls.get() > 5_000_000 { panic!("work budget exceeded"); }
+        d[0] = match self.which { 0 => -y[0].sqrt(), 1 => -y[0], _ => -y[0].ln() - 1.0 - x };
+    }
+    fn jac(&self, x: f64, y: &[f64], j: &mut Matrix) {
+        self.jcalls.set(self.jcalls.get() + 1);
+        if self.analytic { j[(0, 0)] = match self.which { 0 => -0.5 / y[0].sqrt(), 1 => -1.0, _ => -1.0 / y[0] }; }
+        else { self.differencing.set(true); FdOf(self).jac(x, y, j); self.differencing.set(false); }
+    }
+}
+
+fn counts_at_breakdown() {
+    let mut k = 0;
+    let report = |k: usize, name: &str, method: &str, analytic: bool, status: String, nfev: usize, njev: usize, f: &CountRhs| {
+        let (mut why, mut key) = (String::new(), "");
+        if nfev != f.calls.get() { why = format!("nfev = {} but the stepper made {} right-hand-side evaluations (status {})", nfev, f.calls.get(), status); key = "c18-nfev"; }
+        else if njev != f.jcalls.get() { why = format!("njev = {} but {} Jacobian evaluations were made (status {})", njev, f.jcalls.get(), status); key = "c18-njev"; }
+        println!("{{\"kind\":\"iv\",\"case\":{},\"problem\":\"{}\",\"method\":\"{}\",\"analytic_jacobian\":{},\"branch\":\"counts-at-breakdown\",\"finding_key\":\"{}\",\"status\":\"{}\",\"ok\":{},\"why\":{:?}}}",
+            520000 + k, name, method, analytic, key, status, why.is_empty(), why);
+    };
+    for method in [Method::BDF, Method::RADAU] {
+        for (which, xend, y0, rtol, atol, name) in [(0usize, 3.0, 1.0, 1e-3, 1e-6, "y'=-sqrt(y) on [0,3]"), (0, 3.0, 1.0, 1e-10, 1e-12, "y'=-sqrt(y) on [0,3], tight"), (2, 5.0, 1.0, 1e-3, 1e-6, "y'=-ln(y)-1-x on [0,5]"),
+                                                    (2, 5.0, 1.0, 1e-1, 1e-1, "y'=-ln(y)-1-x on [0,5], loose"), (1, -800.0, 1.0, 1e-3, 1e-6, "y'=-y on [0,-800] (overflows)")] {
+            for analytic in [true, false] {
+                let f = CountRhs::new(which, analytic);
+                let o = Options::builder().method(method).rtol(rtol).atol(atol).max_steps(100_000).build();
+                match catch_unwind(AssertUnwindSafe(|| solve_ivp(&f, 0.0, xend, &[y0], o))) {
+                    Ok(Ok(sol)) => report(k, name, method_name(method), analytic, format!("{:?}", sol.status), sol.nfev, sol.njev, &f),
+                    Ok(Err(_)) => report(k, name, method_name(method), analytic, "Err".into(), f.calls.get(), f.jcalls.get(), &f),
+                    Err(_) => println!("{{\"kind\":\"iv\",\"case\":{},\"problem\":\"{}\",\"method\":\"{}\",\"branch\":\"counts-at-breakdown\",\"finding_key\":\"c04-hang-or-panic\",\"ok\":false,\"why\":\"solve_ivp panicked or exceeded the work budget\"}}", 520000 + k, name, method_name(method)),
+                }
+                k += 1;
+            }
+        }
+    }
+    // low-level BDF with a Newton iteration limit of 1 and 2: no attempt can establish convergence with one iteration
+    for maxiter in [1usize, 2] {
+        for analytic in [true, false] {
+            let f = CountRhs::new(1, analytic);
+            let solver = BDF::builder().newton_maxiter(maxiter).build();
+            let r = catch_unwind(AssertUnwindSafe(|| solver.solve(&f, 0.0, &[1.0], 1.0, 1e-3.into(), 1e-6.into(), None::<&mut Recorder>)));
+            if let Ok(Ok(res)) = r { report(k, &format!("y'=-y on [0,1], newton_maxiter {}", maxiter), "BDF", analytic, format!("{:?}", res.status), res.evals.ode, res.evals.jac, &f); }
+            k += 1;
+        }
+    }
 }
 
 /// C04: intervals far from the origin whose default step is below one rounding error of x (RK4 takes span / 100), and a
@@ -562,6 +621,56 @@ fn stagnation_family() {
             println!("{{\"kind\":\"hs\",\"case\":{},\"problem\":\"y'=-y\",\"method\":\"{}\",\"x0\":0,\"xend\":1,\"min_step\":{},\"branch\":\"min-step-bounds\",\"finding_key\":\"{}\",{}\"ok\":{},\"why\":{:?}}}",
                 470000 + k, method_name(method), minstep, key, extra, why.is_empty(), why);
             k += 1;
+        }
+    }
+}
+
+/// y' = lambda y with a user Jacobian that is exact (mode 0), NaN (1), +inf on the diagonal (2) or NaN beyond `xb` (3)
+#[derive(Clone, Copy)]
+struct BadJac { lambda: f64, n: usize, mode: usize, xb: f64 }
+impl IVP for BadJac {
+    fn ode(&self, _x: f64, y: &[f64], d: &mut [f64]) { for i in 0..self.n { d[i] = self.lambda * y[i]; } }
+    fn jac(&self, x: f64, _y: &[f64], j: &mut Matrix) {
+        for r in 0..self.n { for c in 0..self.n {
+            let exact = if r == c { self.lambda } else { 0.0 };
+            j[(r, c)] = match self.mode { 0 => exact, 1 => f64::NAN, 2 => if r == c { f64::INFINITY } else { 0.0 }, _ => if x > self.xb { f64::NAN } else { exact } };
+        } }
+    }
+}
+
+/// C04: iteration matrices that cannot be factorised when a step is first attempted (NaN / inf user Jacobian from the start
+/// or part-way, an exactly singular `I − cJ`), with a `min_step` and the default unlimited step budget.  Such a run makes no
+/// right-hand-side calls while it spins, so the work budget of the other families cannot see it: each case runs on a helper
+/// thread under a wall-clock deadline, and a case that misses it is reported and ends the monitor (the thread cannot be stopped).
+fn hostile_jacobian_family() {
+    use std::sync::mpsc;
+    let mut k = 0;
+    for method in [Method::BDF, Method::RADAU] {
+        for (lambda, n, mode, xb, min_step, xend) in [(-1.0, 1usize, 1usize, 0.0, 1e-3, 1.0), (-1.0, 2, 1, 0.0, 1e-3, 1.0), (-1.0, 1, 1, 0.0, 1e-3, -1.0), (-2.0, 2, 2, 0.0, 1e-2, 1.0),
+                                                      (-1.0, 1, 3, 0.02, 1e-3, 1.0), (-30.0, 2, 3, 0.02, 1e-4, 1.0), (1.0, 1, 0, 0.0, 1.185, 10.0), (1.0, 1, 0, 0.0, 1.0, 10.0), (-1.0, 1, 1, 0.0, 0.5, 1.0)] {
+            let f = BadJac { lambda, n, mode, xb };
+            let (tx, rx) = mpsc::channel();
+            std::thread::spawn(move || {
+                let y0 = vec![1.0; n];
+                let mut o = Options::builder().method(method).rtol(1e-3).atol(1e-6).build();
+                o.min_step = Some(min_step);
+                let r = catch_unwind(AssertUnwindSafe(|| solve_ivp(&f, 0.0, xend, &y0, o)));
+                let _ = tx.send(match r { Err(_) => Err(()), Ok(Err(_)) => Ok(("Err".to_string(), 0, true)), Ok(Ok(sol)) => Ok((format!("{:?}", sol.status), sol.nstep, sol.status != Status::Success || sol.y.iter().all(|v| finite(v)))) });
+            });
+            let (mut why, mut key, mut extra) = (String::new(), "", String::new());
+            let mut hung = false;
+            match rx.recv_timeout(std::time::Duration::from_secs(20)) {
+                Err(_) => { hung = true; why = format!("solve_ivp did not return within 20 s (Jacobian mode {}, min_step {}, unlimited step budget)", mode, min_step); key = "c04-hang-jacobian"; }
+                Ok(Err(())) => { why = "solve_ivp panicked".into(); key = "c04-hang-or-panic"; }
+                Ok(Ok((status, nstep, fin))) => {
+                    extra = format!("\"status\":\"{}\",\"nstep\":{},", status, nstep);
+                    if !fin { why = "Success with non-finite states".into(); key = "c04-nonfinite-success"; }
+                }
+            }
+            println!("{{\"kind\":\"hs\",\"case\":{},\"problem\":\"y'={}y, Jacobian mode {} (0 exact, 1 NaN, 2 inf, 3 NaN beyond {})\",\"method\":\"{}\",\"x0\":0,\"xend\":{},\"n\":{},\"min_step\":{},\"branch\":\"hostile-jacobian\",\"finding_key\":\"{}\",{}\"ok\":{},\"why\":{:?}}}",
+                480000 + k, lambda, mode, xb, method_name(method), xend, n, min_step, key, extra, why.is_empty(), why);
+            k += 1;
+            if hung { use std::io::Write; let _ = std::io::stdout().flush(); std::process::exit(0); }
         }
     }
 }
@@ -635,6 +744,10 @@ impl<'a> IVP for LogIVP<'a> {
 }
 
 /// C12 + C11 (budget prefix): option subsets do not perturb the integration
+/// bitwise equality (NaN states of a run that blew up compare equal to themselves)
+fn bits_eq(a: &[f64], b: &[f64]) -> bool { a.len() == b.len() && a.iter().zip(b).all(|(x, y)| x.to_bits() == y.to_bits()) }
+fn rows_eq(a: &[Vec<f64>], b: &[Vec<f64>]) -> bool { a.len() == b.len() && a.iter().zip(b).all(|(x, y)| bits_eq(x, y)) }
+
 pub fn options(args: &[String]) {
     std::panic::set_hook(Box::new(|_| {}));
     let seed: u64 = args.get(0).and_then(|s| s.parse().ok()).unwrap_or(1);
@@ -650,6 +763,15 @@ pub fn options(args: &[String]) {
             let back = case >= 6;
             c = Cfg { kind: Kind::Riccati, method: ALL_METHODS[case % 6], x0: 0.0, xend: if back { -1.5 } else { 1.5 }, rtol: 1e-3, atol: 1e-6,
                       first: Some(if back { -0.1 } else { 0.1 }), maxstep: Some(0.1), nmax: None };
+        }
+        // every third case: a span that straddles zero and ends close to it — the landing step's
+        // `xold + (xend − xold)` then differs from `xend` in the last bit, which is where an output option that touches the
+        // solver's abscissa shows (seeded change C12d)
+        if !grid_case && case % 3 == 1 {
+            // (|xend| well below the length of the landing step: the rounding error of `xend − xold` is then many ulps of xend)
+            let (a, b) = (0.4 + 1.2 * rng.unit(), 0.002 + 0.1 * rng.unit());
+            if rng.below(2) == 0 { c.x0 = -a; c.xend = b; } else { c.x0 = a; c.xend = -b; }
+            c.maxstep = match c.maxstep { Some(m) if m.is_finite() => Some((a + b) / 8.0), m => m };
         }
         if (c.xend - c.x0).abs() < 1e-6 { continue; }
         let run = |teval: bool, dense: bool, events: bool, nmax: Option<usize>, rng_pts: &Vec<f64>| {
@@ -679,14 +801,18 @@ pub fn options(args: &[String]) {
             let r = match r { Ok(r) => r, Err(e) => { why = format!("option subset {:03b} fails with {:?}", mask, e); key = "c12-error"; break; } };
             if h != h0 || n != n0 { why = format!("option subset {:03b} (bit0 t_eval, bit1 dense, bit2 events): the sequence of right-hand-side calls differs from the plain run ({} vs {} calls)", mask, n, n0); key = "c12-calls"; break; }
             if (r.nfev, r.nstep, r.naccpt, r.nrejct, r.status) != (base.nfev, base.nstep, base.naccpt, base.nrejct, base.status) { why = format!("option subset {:03b}: statistics/status differ from the plain run", mask); key = "c12-stats"; break; }
-            if mask & 1 == 0 && (r.t != base.t || r.y != base.y) { why = format!("option subset {:03b}: accepted samples differ from the plain run", mask); key = "c12-samples"; break; }
+            if mask & 1 == 0 && !(bits_eq(&r.t, &base.t) && rows_eq(&r.y, &base.y)) {
+                let i = (0..r.t.len().min(base.t.len())).find(|&i| r.t[i].to_bits() != base.t[i].to_bits() || !bits_eq(&r.y[i], &base.y[i]));
+                let at = match i { Some(i) => format!("sample {}: t = {:e} y = {:?}, plain run: t = {:e} y = {:?}", i, r.t[i], r.y[i], base.t[i], base.y[i]), None => format!("{} samples, plain run {}", r.t.len(), base.t.len()) };
+                why = format!("option subset {:03b}: accepted samples differ from the plain run ({})", mask, at); key = "c12-samples"; break;
+            }
             // with t_eval the reported value at xend is the interpolant's (C05); the integrator's own trajectory is compared
             // through the hash of every right-hand-side call (times and states) above
         }
         // repeatability
         if why.is_empty() {
             let (r2, h2, _) = run(false, false, false, None, &pts);
-            if h2 != h0 || r2.map(|r| (r.t, r.y)).ok() != Some((base.t.clone(), base.y.clone())) { why = "repeating the same call gives a different result".into(); key = "c12-repeat"; }
+            if h2 != h0 || !r2.map(|r| bits_eq(&r.t, &base.t) && rows_eq(&r.y, &base.y)).unwrap_or(false) { why = "repeating the same call gives a different result".into(); key = "c12-repeat"; }
         }
         // budget prefix (C11)
         if why.is_empty() && base.nstep > 3 {
@@ -694,11 +820,11 @@ pub fn options(args: &[String]) {
             let (rb, _, _) = run(false, false, false, Some(budget), &pts);
             if let Ok(rb) = rb {
                 if rb.nstep > budget + 1 { why = format!("max_steps = {} but nstep = {}", budget, rb.nstep); key = "c11-budget-count"; }
-                else if rb.status == Status::Success && rb.t != base.t { why = "budgeted run succeeded with different samples".into(); key = "c11-budget-prefix"; }
+                else if rb.status == Status::Success && !bits_eq(&rb.t, &base.t) { why = "budgeted run succeeded with different samples".into(); key = "c11-budget-prefix"; }
                 else if rb.status != Status::Success {
                     if rb.status != Status::NeedLargerNMax { why = format!("budget ran out but status is {:?}", rb.status); key = "c11-budget-status"; }
                     let m = rb.t.len();
-                    if m > base.t.len() || rb.t[..] != base.t[..m] || rb.y[..] != base.y[..m] { why = format!("budgeted run (max_steps = {}) is not a bit-identical prefix of the unbudgeted run", budget); key = "c11-budget-prefix"; }
+                    if m > base.t.len() || !bits_eq(&rb.t[..], &base.t[..m]) || !rows_eq(&rb.y[..], &base.y[..m]) { why = format!("budgeted run (max_steps = {}) is not a bit-identical prefix of the unbudgeted run", budget); key = "c11-budget-prefix"; }
                 }
             }
         }
